@@ -46,7 +46,9 @@ func loadBounded() []boundedEntry {
 
 var casesRe = regexp.MustCompile(`BOUNDED-OK cases=(\d+)`)
 
-func runBounded(ent boundedEntry, tier string) boundedResult {
+func runBounded(ent boundedEntry, tier string) boundedResult { return runBoundedWith(ent, tier, nil) }
+
+func runBoundedWith(ent boundedEntry, tier string, extra map[string][]byte) boundedResult {
 	params := ent.Quick
 	if tier == "thorough" && ent.Thorough != nil {
 		params = ent.Thorough
@@ -64,7 +66,7 @@ func runBounded(ent boundedEntry, tier string) boundedResult {
 	}
 	src = strings.ReplaceAll(src, "TestVerifBounded", "TestVerifReplay")
 	t0 := time.Now()
-	out, runErr := RunHarness(src, ent.Pkg, 15*time.Minute)
+	out, runErr := RunHarnessWith(src, ent.Pkg, 15*time.Minute, extra)
 	res.Seconds = round3(time.Since(t0).Seconds())
 	switch {
 	case strings.Contains(out, "BOUNDED-VIOLATED"):
